@@ -39,8 +39,14 @@ type lifeCall struct {
 type lifeHist struct {
 	Enc  bool       `json:"enc"`
 	Bind string     `json:"bind"`
+	Made string     `json:"made"` // "assembled": put together by the application, SPSSODescriptor left nil
 	Hist []lifeCall `json:"hist"`
 }
+
+// lifeStopped: the assembled value got no further than MakeAssertion (nothing leaves the IdP)
+type lifeStopped struct{ why string }
+
+func (e lifeStopped) Error() string { return e.why }
 
 func (h lifeHist) sig() string {
 	var parts []string
@@ -185,6 +191,17 @@ func lifeRequest(h lifeHist, rngKey string) (*saml.IdpAuthnRequest, c08Markers, 
 	if err := req.Validate(); err != nil {
 		return nil, m, reqID, fmt.Errorf("Validate: %w", err)
 	}
+	if h.Made == "assembled" {
+		req = &saml.IdpAuthnRequest{IDP: req.IDP, HTTPRequest: req.HTTPRequest, RelayState: req.RelayState, RequestBuffer: req.RequestBuffer,
+			Request: req.Request, ServiceProviderMetadata: req.ServiceProviderMetadata, ACSEndpoint: req.ACSEndpoint, Now: req.Now}
+		var merr error
+		if p, msg := safely(func() { merr = (saml.DefaultAssertionMaker{}).MakeAssertion(req, session) }); p {
+			return req, m, reqID, lifeStopped{"MakeAssertion panicked: " + strings.SplitN(msg, "\n", 2)[0]}
+		} else if merr != nil {
+			return req, m, reqID, lifeStopped{"MakeAssertion: " + merr.Error()}
+		}
+		return req, m, reqID, nil
+	}
 	if err := (saml.DefaultAssertionMaker{}).MakeAssertion(req, session); err != nil {
 		return nil, m, reqID, fmt.Errorf("MakeAssertion: %w", err)
 	}
@@ -257,6 +274,35 @@ func lifeRun(t *testing.T, prop string) {
 				pos = 1 + (int(hashKey(sig)[0])+int(seedVal()))%5
 			}
 			req, m, reqID, err := lifeRequest(h, sig)
+			if h.Made == "assembled" {
+				akey := fmt.Sprintf("%s:life:assembled:enc=%v:bind=%s", prop, h.Enc, h.Bind)
+				rep.Eval("Assembled", akey)
+				rep.Trace(1)
+				if _, stopped := err.(lifeStopped); stopped {
+					break // as the model says: nothing leaves the IdP
+				}
+				if err != nil {
+					rep.Break("cannot prepare the assembled request value: %v", err)
+					return
+				}
+				// the value got through MakeAssertion: what does it put on the wire?
+				w := httptest.NewRecorder()
+				var werr error
+				p, msg := safely(func() { werr = req.WriteResponse(w) })
+				replay := map[string]any{"history": h, "panic": msg}
+				if p || werr != nil {
+					rep.DriftCase(akey, fmt.Sprintf("the assembled value passed MakeAssertion and then failed (%v %s); the model stops it in MakeAssertion", werr, strings.SplitN(msg, "\n", 2)[0]), replay)
+					break
+				}
+				xmlb, _, _ := samlResponseInBody(w.Body.String())
+				content, leaks := lifeClassify(xmlb, w.Body.Bytes(), m)
+				if prop == "C08" && h.Enc && content == "plain" {
+					rep.Violation(akey+":plaintext", fmt.Sprintf("the registered metadata advertises an encryption key, yet a request value the application assembled itself (SPSSODescriptor left unset) emits the assertion in clear (leaked: %v)", leaks), replay)
+					return
+				}
+				rep.DriftCase(akey, "the assembled value emits a response ("+content+"); the model stops it in MakeAssertion", replay)
+				break
+			}
 			if err != nil {
 				rep.Break("cannot prepare the request value: %v", err)
 				return
